@@ -104,27 +104,72 @@ func (P *Prog) detectRenames() {
 		}
 		return ns
 	}
+	// candidates: unknown functions of the same PACKAGE with the same number of parameters (a function turned into a
+	// method of its first parameter's type, or back, keeps both); the best one by name and by the functions it calls
+	pkgOf := func(n string) string {
+		n = strings.TrimPrefix(strings.TrimPrefix(n, "("), "*")
+		if i := strings.Index(n, ")"); i >= 0 {
+			n = n[:i]
+		}
+		if i := strings.LastIndex(n, "."); i >= 0 {
+			return n[:i]
+		}
+		return n
+	}
+	baseOf := func(n string) string { return n[strings.LastIndex(n, ".")+1:] }
+	loadPinnedCallEdges()
+	curCallees := map[string]map[string]bool{}
+	for f, gs := range P.staticCallees() {
+		m := map[string]bool{}
+		for g := range gs {
+			m[short0(g.String())] = true
+		}
+		curCallees[short0(f.String())] = m
+	}
+	similarity := func(v, n string) float64 {
+		a, b := pinnedCallEdges[v], curCallees[n]
+		if len(a) == 0 && len(b) == 0 {
+			return 0.5
+		}
+		inter := 0
+		for x := range a {
+			if b[x] {
+				inter++
+			}
+		}
+		union := len(a) + len(b) - inter
+		if union == 0 {
+			return 0
+		}
+		return float64(inter) / float64(union)
+	}
 	match := map[string][]string{} // fresh -> vanished that chose it
 	choice := map[string]string{}
 	for _, v := range vanished {
-		var cands []string
+		best, bestScore, tie := "", -1.0, false
 		for _, n := range fresh {
-			if prefixOf(n) == prefixOf(v) && len(cur[n].Params) == len(pinnedParams[v]) {
-				cands = append(cands, n)
+			if pkgOf(n) != pkgOf(v) || len(cur[n].Params) != len(pinnedParams[v]) {
+				continue
+			}
+			score := similarity(v, n)
+			if baseOf(n) == baseOf(v) {
+				score += 2
+			}
+			if prefixOf(n) == prefixOf(v) {
+				score += 0.25
+			}
+			if strings.Join(names(cur[n]), ",") == strings.Join(pinnedParams[v], ",") {
+				score += 0.25
+			}
+			if score > bestScore+1e-9 {
+				best, bestScore, tie = n, score, false
+			} else if score > bestScore-1e-9 {
+				tie = true
 			}
 		}
-		if len(cands) > 1 {
-			var same []string
-			for _, n := range cands {
-				if strings.Join(names(cur[n]), ",") == strings.Join(pinnedParams[v], ",") {
-					same = append(same, n)
-				}
-			}
-			cands = same
-		}
-		if len(cands) == 1 {
-			choice[v] = cands[0]
-			match[cands[0]] = append(match[cands[0]], v)
+		if best != "" && !tie && bestScore >= 0.5 {
+			choice[v] = best
+			match[best] = append(match[best], v)
 		}
 	}
 	P.Renamed = map[string]string{}
